@@ -1161,3 +1161,93 @@ func lenOfField(v ssa.Value, typ, field string) (ssa.Value, bool) {
 	}
 	return loadsField(call.Call.Args[0], typ, field)
 }
+
+// ---------------------------------------------------------------------------
+// R-REFLECT-EXPORTED (C15, C05; added with fix F34): Scan runs in the caller's goroutine, outside every
+// recover of the engine: a reflect panic there is the host's crash, not an error. reflect.Value.Interface
+// panics for a value obtained from an unexported struct field. Every Interface() call whose receiver was
+// reached through Value.Field is made only under a fact that the field is usable: IsExported(),
+// CanInterface(), CanSet() true, or PkgPath == "".
+
+func ruleReflectExported(c *Ctx, r *Report) {
+	const rule = "R-REFLECT-EXPORTED"
+	desc := "reflect.Value.Interface is called on a struct field only when the field is exported"
+	isReflectMethod := func(call *ssa.Call, name string) bool {
+		f := call.Call.StaticCallee()
+		return f != nil && f.Name() == name && f.Pkg != nil && f.Pkg.Pkg.Path() == "reflect"
+	}
+	n, nfield := 0, 0
+	for _, fn := range c.LibFuncs() {
+		if funcPkg(fn) != c.Root {
+			continue
+		}
+		seen := 0
+		eachInstr(fn, func(in ssa.Instruction) {
+			call, ok := in.(*ssa.Call)
+			if !ok || !isReflectMethod(call, "Interface") {
+				return
+			}
+			n++
+			// receiver chain: ... Field(i) ... Addr() ... Interface()
+			viaField := false
+			var walk func(v ssa.Value, d int)
+			walk = func(v ssa.Value, d int) {
+				if v == nil || d > 8 {
+					return
+				}
+				for _, l := range c.originSet(v) {
+					cl, ok := l.(*ssa.Call)
+					if !ok {
+						continue
+					}
+					if isReflectMethod(cl, "Field") {
+						if sig := cl.Call.StaticCallee().Signature; sig.Recv() != nil && isNamedIn(sig.Recv().Type(), "reflect", "Value") {
+							viaField = true
+						}
+						return
+					}
+					if f := cl.Call.StaticCallee(); f != nil && f.Pkg != nil && f.Pkg.Pkg.Path() == "reflect" && len(cl.Call.Args) > 0 {
+						walk(cl.Call.Args[0], d+1)
+					}
+				}
+			}
+			if len(call.Call.Args) > 0 {
+				walk(call.Call.Args[0], 0)
+			}
+			if !viaField {
+				return
+			}
+			nfield++
+			seen++
+			key := fmt.Sprintf("%s/Field.Interface#%d", fname(fn), seen)
+			guarded := false
+			for f := range c.factsAt(in.Block()) {
+				switch x := f.cond.(type) {
+				case *ssa.Call:
+					if callee := x.Call.StaticCallee(); callee != nil && callee.Pkg != nil && callee.Pkg.Pkg.Path() == "reflect" && f.pol {
+						switch callee.Name() {
+						case "IsExported", "CanInterface", "CanSet":
+							guarded = true
+						}
+					}
+				case *ssa.BinOp:
+					// f.PkgPath == ""
+					for _, pair := range [][2]ssa.Value{{x.X, x.Y}, {x.Y, x.X}} {
+						if k, ok := pair[1].(*ssa.Const); ok && k.Value != nil && k.Value.ExactString() == `""` && (x.Op == token.EQL) == f.pol {
+							if strings.Contains(valName(pair[0]), "PkgPath") {
+								guarded = true
+							}
+						}
+					}
+				}
+			}
+			if guarded {
+				r.ok(rule, key, c.at(in), desc, "under a fact that the field is exported", true)
+			} else {
+				r.bad(rule, fmt.Sprintf("%s/Field.Interface", fname(fn)), c.at(in), desc, "Interface() is reached for any field: an unexported field of the destination struct makes reflect panic in the caller's goroutine")
+			}
+		})
+	}
+	r.ok(rule, "scan/Interface-calls", "-", desc, fmt.Sprintf("%d reflect.Value.Interface calls in the root package examined, %d of them on struct fields", n, nfield), false)
+	r.analysed(rule, fmt.Sprintf("%d Interface() calls, %d on struct fields", n, nfield))
+}
